@@ -57,7 +57,8 @@ def _mk_event(ev: Dict[str, Any]) -> Event:
 
 def run_sync(case: gen.Case, nevents: int, rng: random.Random, on_step: Callable,
              events: Optional[List[Dict[str, Any]]] = None, flip_guards=True,
-             setup: Optional[Callable] = None, gtable=None, machine_kw=None):
+             setup: Optional[Callable] = None, gtable=None, machine_kw=None,
+             pre_step: Optional[Callable] = None):
     """Runs the case on SyncInterpreter; `on_step(run, step)` returning True stops the run."""
     rec = Rec()
     gt = dict(gtable) if gtable is not None else rand_gtable(rng, case)
@@ -85,6 +86,8 @@ def run_sync(case: gen.Case, nevents: int, rng: random.Random, on_step: Callable
             gt.update(rand_gtable(rng, case))
         ev = events[i] if events is not None else pick_event(rng, case, config_of(interp), i)
         run["events"].append(ev)
+        if pre_step:
+            pre_step(run, i, ev)
         mark = len(rec.log)
         exc = None
         try:
@@ -108,7 +111,8 @@ def _safe_stop_sync(interp):
 
 def run_async(case: gen.Case, nevents: int, rng: random.Random, on_step: Callable,
               events: Optional[List[Dict[str, Any]]] = None, flip_guards=True,
-              setup: Optional[Callable] = None, gtable=None, machine_kw=None):
+              setup: Optional[Callable] = None, gtable=None, machine_kw=None,
+              pre_step: Optional[Callable] = None):
     """Runs the case on Interpreter over a virtual-time loop; observes at each drain."""
     rec = Rec()
     gt = dict(gtable) if gtable is not None else rand_gtable(rng, case)
@@ -142,6 +146,8 @@ def run_async(case: gen.Case, nevents: int, rng: random.Random, on_step: Callabl
                 gt.update(rand_gtable(rng, case))
             ev = events[i] if events is not None else pick_event(rng, case, config_of(interp), i)
             run["events"].append(ev)
+            if pre_step:
+                pre_step(run, i, ev)
             mark = len(rec.log)
             exc = None
             try:
